@@ -643,7 +643,7 @@ class DCM(np.ndarray):
 
         """
         trace_R = self.A.trace()
-        if np.isclose(trace_R, 3.0):
+        if trace_R >= 3.0:      # Exactly the identity (a tolerance here would zero the logarithm of every small rotation)
             return np.zeros((3, 3))
         theta = np.arccos((self.A.trace()-1)/2)
         nom = theta * (self.A.T - self.A)
